@@ -11,11 +11,17 @@ CONSTANTS NATOM, MAXLEAF, OLD
 Atoms == 1..NATOM
 Val(a, ng) == [t |-> "val", a |-> a, neg |-> ng]
 Jn(tp, ng, l, r) == [t |-> tp, neg |-> ng, l |-> l, r |-> r]
-RECURSIVE TreesN(_)
-TreesN(k) == IF k = 1 THEN { Val(a, ng) : a \in Atoms, ng \in BOOLEAN }
-             ELSE UNION { { Jn(tp, ng, l, r) : tp \in {"conj", "disj"}, ng \in BOOLEAN,
-                                               l \in TreesN(i), r \in TreesN(k - i) } : i \in 1..(k - 1) }
-Trees == UNION { TreesN(k) : k \in 1..MAXLEAF }
+(* trees by number of leaves.  T1..T3 are constant-level definitions (TLC evaluates each once); trees of four leaves are not
+   enumerated as initial states (TLC computes initial states on one thread) but grown by Next from a seed state that
+   holds the split and the left subtree, so that the workers share them *)
+Comb(L, R) == { Jn(tp, ng, l, r) : tp \in {"conj", "disj"}, ng \in BOOLEAN, l \in L, r \in R }
+T1 == { Val(a, ng) : a \in Atoms, ng \in BOOLEAN }
+T2 == Comb(T1, T1)
+T3 == Comb(T1, T2) \cup Comb(T2, T1)
+Small == T1 \cup (IF MAXLEAF >= 2 THEN T2 ELSE {}) \cup (IF MAXLEAF >= 3 THEN T3 ELSE {})
+\* seeds for four leaves: the left subtree (1, 2 or 3 leaves); the right one then has 3, 2 or 1
+Seeds == IF MAXLEAF >= 4 THEN { [t |-> "seed", l |-> l] : l \in T1 \cup T2 \cup T3 } ELSE {}
+RightOf(l) == IF l \in T1 THEN T3 ELSE IF l \in T2 THEN T2 ELSE T1
 Valuations == [Atoms -> BOOLEAN]
 
 \* (S) reference semantics; a negative atom number -a stands for the complemented comparison
@@ -47,10 +53,12 @@ DisjM(n, v) == IF n.t = "disj" THEN ConjM(n.l, v) \/ DisjM(n.r, v) ELSE ConjM(n,
 Mech(n, v) == IF OLD THEN DisjM(Denega(n), v) ELSE Eval(Denega(n), v)
 
 VARIABLE tree
-Init == tree \in Trees
-Next == UNCHANGED tree
+Init == tree \in Small \cup Seeds
+Next == /\ tree.t = "seed"
+        /\ \E tp \in {"conj", "disj"}, ng \in BOOLEAN, r \in RightOf(tree.l) : tree' = Jn(tp, ng, tree.l, r)
 Spec == Init /\ [][Next]_tree
-Refines == \A v \in Valuations : Mech(tree, v) = Eval(tree, v)
-PushedDown == NoNeg(Denega(tree))
-Emit == PrintT(ToJson(tree))
+IsTree == tree.t # "seed"
+Refines == IsTree => \A v \in Valuations : Mech(tree, v) = Eval(tree, v)
+PushedDown == IsTree => NoNeg(Denega(tree))
+Emit == IsTree => PrintT(ToJson(tree))
 =============================================================================
